@@ -97,6 +97,10 @@ def _lsf(rng, joblist, code, status, own):
     for jid in joblist:
         st = status.get(jid)
         if st is None:
+            # nothing is said about the job - or a row that names it but carries no state
+            # (a truncated / still-being-written line): no information either
+            if rng.random() < 0.4:
+                rows.append(rng.choice(["%s", "%s    |", "|%s|", "%s|"]) % jid)
             continue
         word, reason = rng.choice(rev[st.name])
         rows.append("%s|%s|%s|%s" % (jid.ljust(7), word.ljust(5), "-".ljust(10), reason))
